@@ -150,6 +150,15 @@ impl Pool {
         // table to track the schema of its own table(s).
         const DB_SCHEMA_KEY: &str = "pool";
 
+        /* Creating/upgrading the tables and recording the resulting schema version has to be
+         * atomic: if we get killed in between, the next start would see tables that do not match
+         * the recorded version and fail to upgrade them forever after.
+         */
+        let tx = self
+            .conn
+            .unchecked_transaction()
+            .map_err(|e| Error::emit("Starting schema transaction", &e))?;
+
         self.conn
             .execute(
                 "CREATE TABLE IF NOT EXISTS schema_version (
@@ -191,6 +200,8 @@ impl Pool {
                 )
                 .map_err(|e| Error::emit("Creating updating schema version", &e))?;
         }
+        tx.commit()
+            .map_err(|e| Error::emit("Committing schema transaction", &e))?;
         Ok(self)
     }
 
